@@ -353,6 +353,11 @@ def heredoc_corpus():
     for sub in ("$(cat <<E)", "`cat <<-E`", "$(cat <<E | b)"):
         out += ["echo $((\n%s + 1\n))\n" % sub, "((\n%s + 1\n))\n" % sub, "echo $((1 +\n%s))\n" % sub, "cat <<A\n%s\nA\n" % sub,
                 "cat <<A\nfoo %s bar\nA\n" % sub, "echo %s\n" % sub, "if a; then\n cat <<A\n%s\nA\nfi\n" % sub, "x=\"%s\"\n" % sub]
+    # delimiters that begin with the character of another operator spelling: '<< -E' is not '<<-E'
+    for first, rest in ctxs[:8] + [("cat {H}", "")]:
+        for op, d, body in (("<< ", "-E", "x\n"), ("<< ", "-", "y\n"), ("<<- ", "-E", "\tz\n"), ("<< ", "--", ""), ("<<", "'-E'", "q\n"), ("<< ", "-E-", "- E\n")):
+            dl = d.strip("'")
+            out.append(first.replace("{H}", op + d) + "\n" + body + ("\t" if op.startswith("<<-") else "") + dl + "\n" + rest)
     # two here-documents on one line, the second body with a multi-line expansion
     for first, rest in ctxs[:6]:
         out.append(first.replace("{H}", "<<A <<B") + "\n1\nA\n$(\n\tx\n)\nB\n" + rest)
@@ -375,6 +380,12 @@ def arith_corpus():
                 out.append(first + "\n" + " " * col + p2 + "\n" + closer + tail + "\n")
             out.append(prefix + opener + "\n" + p1 + "\n " + p2 + "\n" + closer + tail + "\n")
         out.append("cat <<E\n$((" + p1 + "\n   " + p2 + "))\nE\n")
+    # empty and one-character quotes, escapes and expansions directly before / after another part
+    for q in ('""', "''", '"a"', "'a'", "\\a", "${x:-\"\"}", "${x}", "$x", "$(a)", "`a`", "$((1))", '"$x"', '"${x:-}"', "${#x}"):
+        for gap in ("", " ", "  "):
+            for nxt in ("+1", "1", "$y", "* 2", '""', "''"):
+                out.append("echo $((" + q + gap + nxt + "))\n")
+                out.append("((" + nxt.lstrip("+* ") + gap + q + gap + nxt + "))\n")
     # parts of one line with multi-byte text before them: columns count characters, not bytes; the printer decides on a blank
     # between two parts from their recorded columns
     for wide in ("é", "日本", "éé", "\"é\"", "'日'"):
@@ -419,6 +430,14 @@ def illformed_contexts():
             "cat <<'Q' | cat <<-E\nq\nQ\n\tX\n\tE\n", "x=$(cat <<'Q' <<E\nq\nQ\nX\nE\n)", "if a <<'Q'; then b <<E; fi\nq\nQ\nX\nE\n",
             "cat <<E <<'Q'\nX\nE\nq\nQ\n", "cat <<E\n$y X\nE\n", "{ cat <<'Q'; cat <<E; }\nq\nQ\nX\nE\n", "cat <<Q\\Q <<E\nq\nQQ\nX\nE\n"]
     out = []
+    # a backquote substitution that ends while a command is still open in it, alone and followed by text that would
+    # complete the command outside the substitution
+    for inner, tail in (("case x in a", " b ;; esac)"), ("case x in a", ""), ("case x in", " a) b ;; esac)"), ("if a", "; then b; fi)"), ("if a; then b", "; fi)"),
+                        ("( a", " )"), ("{ a;", " })"), ("while a", "; do b; done)"), ("for i in 1", "; do :; done)"), ("a | ( b", ")"),
+                        ("case x in (a", " b ;; esac)"), ("case x in a|b", " c ;; esac)"), ("until a; do b", "; done)"), ("f() { a;", " })")):
+        for c in ("echo `X`T", "echo \"`X`\"T", "x=`X`T", "cat <<E\n`X`T\nE\n", "echo ${y:-`X`T}", "`X`T", "echo $(echo `X`T)"):
+            out.append(c.replace("X", inner).replace("T", tail))
+            out.append(c.replace("X", inner).replace("T", ""))
     for x in exp:
         for c in wctx + hctx:
             if "`" in x and "`" in c:
